@@ -22,6 +22,10 @@ different options `pnext` offers.
 | `cursor.newCursor` by query: `GetJournals`, then either the cursor lives and `close()` releases every journal later, or an error path (`newFIterator` fails, the position cannot be applied) calls `releaseJournals(srcs)`; `GetJournals`' own failures (more than 50 partitions, `GetOrCreate`) are its limit / error path | `newCursorByQuery sel` = `vStart .getJournals sel` |
 | `cursor.newCursor` by `state.Src`: `GetJournal(src)`, then `close()` later or `releaseJournals` on an error | `newCursorBySrc s` = `idLoopOf [s] false` |
 
+`Shutdown()` of the tag index may happen at any point of a run (`Reach.shutdown`): acquisitions then fail and the callers
+go on without them; a waiting `Visit` (`Partitions`, `GetJournals`) that meets the flag in its per-item section returns
+`WrongState` WITHOUT its final locked section.
+
 The environment's free choices are modelled by offering all of them; a waiting caller (partition exclusively locked)
 is an option that changes neither the state nor the control state.
 -/
@@ -197,6 +201,10 @@ def pnext (a : Nat) (st : St) : Ctl → List (Lbl × Ctl)
       else if skipOf kind then
         -- the skipping flavour calls the visitor on the next snapshot entry (Go's map order: any of them)
         v.pending.flatMap (fun s => cbOpts a st kind s kept)
+      else if st.done then
+        -- the waiting flavour after `Shutdown()`: the per-item section sees `ims.done` and `Visit` returns
+        -- `errors2.WrongState` at once, WITHOUT its final locked section; the caller goes on as after any failed visit
+        v.pending.map (fun s => (Lbl.visitTry a s, afterVisit kind kept))
       else
         -- the waiting flavour: the per-item section on the next entry
         v.pending.flatMap (fun s =>
@@ -239,5 +247,27 @@ inductive Reach : Sys → Prop
   | step {x y : Sys} (h : Reach x) (s : SysStep x y) : Reach y
   /-- a finished actor starts another call -/
   | call {x : Sys} (h : Reach x) (a : Nat) (c : Ctl) (hf : x.ctl a = .fin) (he : isEntry c) : Reach ⟨x.st, upd x.ctl a c⟩
+  /-- `Shutdown()` of the tag index, at any point of the run -/
+  | shutdown {x : Sys} (h : Reach x) : Reach ⟨{ x.st with done := true }, x.ctl⟩
+
+/-! ### run segments, and what a caller is waiting for (used by the bounded-waiting theorems) -/
+
+/-- the source an unfinished caller needs next (the only thing it can wait for) -/
+def needs (a : Nat) (st : St) : Ctl → Nat → Prop
+  | .acqTags t _, s => findTags st.c.parts t st.c.next = some s
+  | .idLoop s' _ _, s => s' = s
+  | .peek s' _, s => s' = s
+  | .vPick kind _, s => skipOf kind = false ∧ ∃ v, st.vis a = some v ∧ v.pending.head? = some s
+  | _, _ => False
+
+/-- actor `a` performs one of its options -/
+def SysStepBy (a : Nat) (x y : Sys) : Prop :=
+  ∃ l c', (l, c') ∈ pnext a x.st (x.ctl a) ∧ step x.st l = some y.st ∧ y.ctl = upd x.ctl a c'
+
+/-- a run segment; the list names the acting actors in order (the scheduler's choices) -/
+inductive Run : Sys → List Nat → Sys → Prop
+  | nil (x : Sys) : Run x [] x
+  | cons {a : Nat} {x y z : Sys} {as : List Nat} (s : SysStepBy a x y) (r : Run y as z) : Run x (a :: as) z
+
 
 end Logrange.TIndexProg
